@@ -12,6 +12,7 @@ CONSTANT OpSet = {"Get", "GetActive", "Put", "Upsert", "Remove", "Peek", "Inval"
 CONSTANT FreePut = TRUE
 CONSTANT MaxOps = 10
 CONSTANT MaxSteps = 10
+CONSTANT SplitLoad = TRUE
 CONSTANT MaxUpd = 2
 CONSTANT Pool = 6
 CONSTANT SeqPrefix = 1000000
